@@ -22,8 +22,8 @@ func (r *Rng) Intn(n int) int {
 	return int(r.Next() % uint64(n))
 }
 func (r *Rng) Chance(num, den int) bool { return r.Intn(den) < num }
-func (r *Rng) Pick(xs []string) string   { return xs[r.Intn(len(xs))] }
-func (r *Rng) pickByte(s string) byte     { return s[r.Intn(len(s))] }
+func (r *Rng) Pick(xs []string) string  { return xs[r.Intn(len(xs))] }
+func (r *Rng) pickByte(s string) byte   { return s[r.Intn(len(s))] }
 
 // Fork derives an independent generator for case i (so a case is replayable from (seed, index)).
 func (r *Rng) Fork(i int) *Rng { return NewRng(r.s ^ (uint64(i)+1)*0xD6E8FEB86659FD93) }
